@@ -452,7 +452,7 @@ func (p *PHYPayload) DecryptFRMPayload(key AES128Key) error {
 
 	// the FRMPayload contains MAC commands, which we need to unmarshal
 	var err error
-	if macPL.FPort != nil && *macPL.FPort == 0 {
+	if macPL.FPort != nil && *macPL.FPort == 0 && len(macPL.FRMPayload) != 0 {
 		macPL.FRMPayload, err = decodeDataPayloadToMACCommands(p.isUplink(), macPL.FRMPayload)
 	}
 
@@ -466,6 +466,10 @@ func (p *PHYPayload) DecodeFRMPayloadToMACCommands() error {
 	macPL, ok := p.MACPayload.(*MACPayload)
 	if !ok {
 		return errors.New("lorawan: MACPayload must be of type *MACPayload")
+	}
+
+	if len(macPL.FRMPayload) == 0 {
+		return nil
 	}
 
 	var err error
